@@ -294,14 +294,15 @@ Lemma read_string_call fv sv cs bv k sx m o : is_ptr fv -> is_ptr sv -> Forall b
     (exists x, m' = m ++ x) /\
     ((st = SBDF_OK /\ cs' = VPtr RIn (zlen m + 4) /\ zlen m + 4 <= zlen m' /\ Forall byte s') \/ (st < 0 /\ cs' = cs)) /\
     (st = SBDF_OK -> match read_string false None sx with Ok (_, rest) => s' = rest | Err _ => False end) /\
-    (k < 0 -> match read_string false None sx with Ok _ => st = SBDF_OK | Err e => st = e end).
+    (k < 0 -> match read_string false None sx with Ok _ => st = SBDF_OK | Err e => st = e end) /\
+    (k < 0 -> st = SBDF_OK -> k' = k).
 Proof.
   intros Hf Hp Hs. unfold read_string, rd_bind.
   destruct (read_int32 false sx) as [[n s1]|e] eqn:Hr.
   2: { destruct (read_string_fr_hdr fv sv VUndef VUndef VUndef VUndef cs bv k sx m o Hf Hp Hs e Hr) as (e' & l' & t' & c1' & s' & B).
        assert (Est : e = SBDF_ERROR_IO) by (rewrite read_int32_model in Hr; destruct sx as [|b0 [|b1 [|b2 [|b3 r]]]]; congruence). subst e.
        exists SBDF_ERROR_IO, e', l', t', c1', cs, k, s', m. split; [exact B|]. split; [exists []; now rewrite app_nil_r|].
-       split; [right; split; reflexivity|]. split; [intros X; cbv in X; discriminate X|intros _; reflexivity]. }
+       split; [right; split; reflexivity|]. split; [intros X; cbv in X; discriminate X|split; [intros _; reflexivity|intros _ X; cbv in X; discriminate X]]. }
   assert (Hn : int_min <= n <= int_max).
   { rewrite read_int32_model in Hr. destruct sx as [|b0 [|b1 [|b2 [|b3 r]]]]; try discriminate. injection Hr as <- _.
     apply ImpBase.de32_range; [|reflexivity].
@@ -312,17 +313,17 @@ Proof.
   destruct (Z.eq_dec n int_max) as [->|Hne].
   { destruct (read_string_fr_max fv sv VUndef VUndef VUndef VUndef cs bv k sx m o s1 Hf Hp Hs Hr) as (e' & l' & t' & c1' & B).
     exists SBDF_ERROR_OUT_OF_MEMORY, e', l', t', c1', cs, k, s1, m. split; [exact B|]. split; [exists []; now rewrite app_nil_r|].
-    split; [right; split; reflexivity|]. split; [intros X; cbv in X; discriminate X|intros _].
+    split; [right; split; reflexivity|]. split; [intros X; cbv in X; discriminate X|split; [intros _|intros _ X; cbv in X; discriminate X]].
     change (int_max <? 0) with false. change (int_max =? INT_MAX) with true. reflexivity. }
   assert (Hmax : n + 1 <= int_max) by lia.
   destruct (read_string_fr_body fv sv VUndef VUndef VUndef VUndef cs bv k sx m o n s1 Hf Hp Hs Hr Hmax) as (e' & l' & t' & c1' & B).
   unfold int_min, int_max in Hn, Hmax, Hne. pose proof (zlen_nonneg s1) as Ps. pose proof (zlen_nonneg m) as Pm.
   do 9 eexists. split; [exact B|].
   destruct (n <? 0) eqn:En.
-  { split; [exists []; now rewrite app_nil_r|]. split; [right; split; reflexivity|]. split; [intros X; cbv in X; discriminate X|intros _; reflexivity]. }
+  { split; [exists []; now rewrite app_nil_r|]. split; [right; split; reflexivity|]. split; [intros X; cbv in X; discriminate X|split; [intros _; reflexivity|intros _ X; cbv in X; discriminate X]]. }
   replace (n =? INT_MAX) with false by (unfold INT_MAX; lia). unfold ralloc, alloc_ok.
   destruct (k =? 0) eqn:Ek.
-  { split; [exists []; now rewrite app_nil_r|]. split; [right; split; reflexivity|]. split; [intros X; cbv in X; discriminate X|intros X; lia]. }
+  { split; [exists []; now rewrite app_nil_r|]. split; [right; split; reflexivity|]. split; [intros X; cbv in X; discriminate X|split; [intros X; lia|intros X; lia]]. }
   unfold rd_ok. destruct (n <=? zlen s1) eqn:Eo.
   - assert (Hsplit : s1 = firstn (Z.to_nat n) s1 ++ skipn (Z.to_nat n) s1) by (symmetry; apply firstn_skipn).
     assert (Hl : zlen (firstn (Z.to_nat n) s1) = n) by (unfold zlen in *; rewrite firstn_length; lia).
@@ -332,12 +333,12 @@ Proof.
     split; [unfold str_mem; eexists; reflexivity|].
     split; [left; split; [reflexivity|split; [reflexivity|split; [unfold str_mem; rewrite !zlen_app; change (zlen (le32 _)) with 4; pose proof (zlen_nonneg (firstn (Z.to_nat n) s1)); change (zlen [0]) with 1; change (zlen []) with 0; lia|]]]|].
     { rewrite Hsplit in Hs1. apply Forall_app in Hs1. exact (proj2 Hs1). }
-    split; [intros _; reflexivity|intros _; reflexivity].
+    split; [intros _; reflexivity|split; [intros _; reflexivity|intros Hk0 _; unfold next_fail; replace (0 <? k) with false by lia; reflexivity]].
   - assert (FR : exists e2, fread_bytes n s1 = Err e2 /\ e2 = SBDF_ERROR_IO).
     { unfold fread_bytes. replace (n <? 0) with false by lia. rewrite take_z_short by lia. eexists. split; reflexivity. }
     destruct FR as (e2 & FR & ->). rewrite FR.
     split; [unfold str_mem; replace (Z.to_nat (zlen m + 4)) with (List.length m + 4)%nat by (unfold zlen; lia); rewrite upd_range_app_r; eexists; reflexivity|].
-    split; [right; split; reflexivity|]. split; [intros X; cbv in X; discriminate X|intros _; reflexivity].
+    split; [right; split; reflexivity|]. split; [intros X; cbv in X; discriminate X|split; [intros _; reflexivity|intros _ X; cbv in X; discriminate X]].
 Qed.
 
 Theorem read_string_source sx m k : Forall byte sx ->
